@@ -70,8 +70,12 @@ theorem dispatch_raises_on_mismatch
     subst hrc
     simp only [BEq.rfl, reduceCtorEq, false_or] at hdl
     exact ⟨hdl.1, hdl.2, heq, hne⟩
+  have hfd : (rule == Rule.floorDivide) = false := by
+    cases rule <;> first | rfl | (simp [Rule.checked] at hc)
+  have hres : rule.rescales = true := by simp [Rule.rescales, hc]
   have key : dispatch C c = ⟨[], .error .UnitOperationError⟩ := by
-    simp only [dispatch, hin, binaryPath, h0, h1, hp, hr, Bool.false_eq_true, if_false, stdBinary, hc, if_true]
+    simp only [dispatch, hin, binaryPath, h0, h1, hp, hr, Bool.false_eq_true, if_false, stdBinary, hfd,
+      Bool.false_and, hres, if_true]
     simp only [resolved] at href
     split
     · rfl
@@ -138,7 +142,9 @@ theorem eq_ne_mismatch_answers (C : Ctx K) (hs : UeqSound C.ueq) (c : Call K) (i
   simp only [dispatch, hin, binaryPath, h0, h1, hp, hr, Bool.false_eq_true, if_false, stdBinary]
   simp only [resolved] at hchk
   have hkr : ((Rule.comparison == Rule.preserve) = false) := by decide
-  simp only [hkr, Bool.false_and, Bool.false_eq_true, if_false, Rule.checked, if_true, hchk]
+  have hfd : ((Rule.comparison == Rule.floorDivide) = false) := by decide
+  have hres : Rule.comparison.rescales = true := by decide
+  simp only [hkr, hfd, Bool.false_and, Bool.false_eq_true, if_false, hres, if_true, hchk]
   cases hco : c.out with
   | none => exact ⟨_, rfl, rfl, rfl⟩
   | one o =>
